@@ -294,6 +294,7 @@ Proof.
       [|unfold out_app; cbn [o_st o_trace o_rest]; now rewrite app_nil_r].
     destruct (next_segment sd sh flen pos) as [[d h]|e]; [|unfold out_app; cbn [o_st o_trace o_rest]; now rewrite app_nil_r].
     change (CopyLoop.out_app) with CopyLoop.out_app.
+    destruct ((h <=? pos) || (h <? d)); [unfold out_app; cbn [o_st o_trace o_rest]; now rewrite app_nil_r|].
     destruct (copy_bytes (S (List.length ans)) bs (h - d) 0 d ans) as [st t r] eqn:Ec. cbn [o_st o_trace o_rest].
     destruct st; try (unfold out_app; cbn [o_st o_trace o_rest]; reflexivity).
     rewrite IH. unfold out_app, CopyLoop.out_app. cbn [o_st o_trace o_rest]. now rewrite app_assoc.
